@@ -17,7 +17,10 @@ Case kinds (model = compared with the Lean model through the named driver op; ev
  fn           one call NAME(args): the one- and two-argument functions and PI; model `math` (<= 4 ulps); judge_fn
  abs          the same for ABS; model `fn` (ints exactly, floats <= 1 ulp); judge_fn
  powint       POWER on two Python ints with exponent >= 0; model `math.powint` (exact); judge_fn
- pv           one call PV(args); model `math` (<= 4 ulps); judge_pv (the annuity equation)
+ pv           one call PV(args), the arguments bound to variables; model `math` (<= 4 ulps); judge_pv (the annuity
+              equation).  A pv case with a `formula` is the same call WRITTEN with one of the three argument
+              separators (, ; \\), a blank future value before a type being an empty slot of the text; it is sent
+              to the model as its argument list (the empty slot as a blank) and judged by judge_pv on that list
  ident        the formulas of one entry of IDENT at one argument tuple; oracle only (judge_ident)
  rand         n draws of RAND(); oracle only (judge_rand)
  randbetween  n draws of RANDBETWEEN(a, b); oracle only (judge_rand)
@@ -40,7 +43,9 @@ FUNCTIONS = ['hotxlfp.formulas.mathtrig:%s' % n for n in _MT] + [
     'hotxlfp.formulas.financial:PV', 'hotxlfp.formulas.utils:parse_number', 'hotxlfp.formulas.utils:any_is_error',
     'hotxlfp.helper.number:to_number']
 RULE = ('case kinds fn / abs (fn for ABS) / powint / pv / ident / rand / randbetween; arguments are bound to variables, one '
-        'Parser.parse per formula. Per one-argument function (21 unary ones, LOG with its default base, ABS): 44 special points '
+        'Parser.parse per formula (NAME(xa,xb,...) unless the case carries its own formula text: the 20 written function calls '
+        'and the written PV calls below). '
+        'Per one-argument function (21 unary ones, LOG with its default base, ABS): 44 special points '
         '(0, +-1, +-1/2, +-2, 3, 10, 100, the floats next to +-1, float multiples of pi/4 up to 2pi, +-1e-5, +-1e-300, +-1e300, '
         '1e15, 1e22, e, +-709, 690, 745, -745.13, 0.1, 0.3, logicals), 5e-324 / -5e-324 / 1e-310 where harmless (not ACOSH, '
         'ACOTH, COT), the ints +-10^20, 2^53, 2^53+1, 12 numeric texts ("0.5", " 12 ", "1_000", "1e3", "+3", ".5", "007", '
@@ -72,21 +77,33 @@ RULE = ('case kinds fn / abs (fn for ABS) / powint / pv / ident / rand / randbet
         'one of 20 fixed rates in [-0.9, 10] incl. the ints 1, 2, 3 (50%) or uniform in (-0.95, 1.5) with |rate| >= 1e-4; '
         'periods int in [0,400] or [-20,-1], fractional in [0.25,60], 0.5, 360, kept at |periods*ln(1+rate)| <= 600 (int rate '
         'with int periods: periods in [-10,20]); payment and future value ints or reals; type in {0, 1, TRUE, FALSE, 0.0, 1.0}; '
-        '3 / 4 / 5 arguments (15 / 15 / 70%). ident: 28 identities (sin^2+cos^2, TAN=SIN/COS, COT=1/TAN, EXP(LN x), LN(EXP x), '
+        '3 / 4 / 5 arguments (15 / 15 / 70%). Written PV calls: after these, every fixed call with 3 to 5 arguments (30 of '
+        'the 32) and each seeded one with probability 1/2 is repeated as a further pv case that carries the formula text '
+        '"PV(" + slots joined by one separator + ")", the separator of the whole call being "," (25%), ";" (25%) or "\\" '
+        '(50%) and the slots the variable names xa..xe; before writing, a 5-argument call whose future value is the int or '
+        'float 0 (not a logical) gets it replaced by a blank with probability 60%, and blanks at the end beyond the third '
+        'argument are dropped from the argument list (PV(0.05,10,-100,blank,blank) is written with 3 arguments); a blank '
+        'future value in front of a type is an EMPTY SLOT of the text (PV(xa;xb;xc;;xe)), not a variable holding None, '
+        'whereas a blank among the first three arguments stays a variable holding None; about 30 + p/2 cases (some 310 '
+        'quick, 40000 thorough), judged and compared with the model like the others, on the argument list with the blank in '
+        'it. ident: 28 identities (sin^2+cos^2, TAN=SIN/COS, COT=1/TAN, EXP(LN x), LN(EXP x), '
         'LOG(x,b)=LN x/LN b, LOG10 x=LN x/LN 10=LOG x, f(f^-1 y)=y and f^-1(f x)=x on the principal ranges for the 7 circular / '
         'hyperbolic pairs, TANH(ACOTH x)=1/x, DEGREES(RADIANS x) and back, the angle of ATAN2, SQRT(x)^2, SQRT(POWER(x,2))=ABS '
         'x, PI()=ACOS(-1)=4*ATAN(1)) evaluated through real formulas with the argument bound to a variable: 44 arguments per '
         'round, i rounds (i = 40*scale quick, 6000 thorough), 15 fixed points for the ATAN2 angle (the origin is left out). '
         'RAND(): 4d draws; RANDBETWEEN(a,b): 17 fixed pairs (ints, equal bounds, +-10^12, integral floats, text, logicals, a > '
         'b, non-integral, non-numbers) and r seeded int pairs with b-a in {0, 1, 2, 5, 100, 10^6} (r = 10*scale quick, 800 '
-        'thorough), d draws each (d = 40 quick, 400 thorough). About 7400 cases quick (21300 at scale 5), 501000 thorough. '
+        'thorough), d draws each (d = 40 quick, 400 thorough). About 7700 cases quick (22900 at scale 5), 541000 thorough. '
         'Compared with the Lean model: fn and pv (driver op `math`, equal or <= 4 ulps apart, errors by code), abs (op `fn`: '
-        'ints exactly, floats <= 1 ulp), powint (op `math.powint`, exactly) - about 5300 quick, 233000 thorough - unless an '
+        'ints exactly, floats <= 1 ulp), powint (op `math.powint`, exactly) - about 5600 quick, 273000 thorough; a case with a '
+        'formula text is sent as the argument list it denotes (an empty slot as the blank `nil`), the text itself is not part '
+        'of the request - unless an '
         'argument is text the model does not read (exponent form, non-ASCII, beyond the float range) or an int above 2^53 '
         '(ACOT, ACOTH, POWER, PV) / 10^30 (the others); ident, rand, randbetween are oracle-only. When a proof or the '
         'correspondence broke, search() adds (oracle only, up to the first failure) the function cases with n = 400 for the '
-        'disagreeing function names (all if none), 5000 seeded PV (if PV disagreed or no name), 300 identity rounds and the '
-        'guard cases with g = 400: about 38500 cases. No time budget, no shrinking, each case counts once. Non-trivial = the '
+        'disagreeing function names (all if none), the PV cases with p = 5000 (the 32 fixed, 5000 seeded and about 2500 '
+        'written ones; if PV disagreed or no name), 300 identity rounds and the guard cases with g = 400: about 41000 cases. '
+        'No time budget, no shrinking, each case counts once. Non-trivial = the '
         'implementation returned a finite number (ident: every formula did; rand: at least two distinct draws; randbetween: '
         'every draw an int and at least two distinct ones or a one-point range); distinct = distinct case dict.')
 TRUSTED = ['L3 is not proved: libm (sin, cos, tan, asin, acos, atan, atan2, sinh, cosh, tanh, asinh, acosh, atanh, sqrt, log, '
@@ -106,6 +123,10 @@ TRUSTED = ['L3 is not proved: libm (sin, cos, tan, asin, acos, atan, atan2, sinh
            'exact power, the OverflowError of float()); ABS goes through the exact-rational model (driver op fn: ints exactly, '
            'floats within 1 ulp); numeric text is compared in the forms the model reads (ASCII decimal, inner underscores '
            'allowed, no exponent, inside the float range)',
+           'the written calls (20 function calls with the argument in the text, the PV calls written with ",", ";" or "\\" '
+           'and an empty slot for a blank future value) reach the model as the argument list the generator says the text '
+           'denotes: the parser\'s reading of the text (the three separators, an empty slot handed on as a blank argument) is '
+           'not modelled here, it is exercised by the comparison of the result and by the annuity equation only',
            'PV with 1+rate < 0 and a non-integral number of periods returns a Python complex number; the model says #ERROR! '
            '(outside the statement\'s rate > -1; not generated)',
            'the runner classifies the parser\'s answer as error code / int / finite float / nan or inf / other (a logical, '
@@ -138,7 +159,8 @@ ASSUMPTIONS = ['arguments are confined to magnitudes where the true result and t
                'LN(EXP x) for |x| <= 700, ATANH(TANH x) for |x| <= 6, ACOSH(COSH x) for 1e-3 <= x <= 690',
                'PV is judged by the annuity equation pv*R + pmt*(1+rate*type)*(R-1)/rate + fv = 0, R = (1+rate)^periods (rate 0: '
                'pv + pmt*periods + fv = 0), residual within 1e-9 of the largest term + 1e-12, for rate > -1 and type in {0,1}; '
-               'an omitted or blank future value / type counts as 0, a blank among the first three arguments is not judged, '
+               'an omitted or blank future value / type counts as 0 - so does an empty slot of a written call, and ",", ";" and '
+               '"\\" separate the arguments of a call alike -, a blank among the first three arguments is not judged, '
                'a non-number among the five requires an error; the generator keeps |rate| >= 1e-4 (or rate = 0): '
                'for smaller rates the subtraction 1-(1+rate)^periods loses accuracy (candidate finding, witness '
                'PV(1e-12,1,-100) = 100.0089 instead of 99.9999999999)',
